@@ -181,7 +181,7 @@ def F(t, *names):
     return t
 
 
-EOC = ('unwrap', ('last', P(2)))
+EOC = ('case', ('last', P(2)), 'Some', 0)
 WL = P(1)
 SUB = P(2)
 TIMER_ES = 'ros2::rr::CallbackType::EventSource|ros2::rr::CallbackType::Timer'
